@@ -330,4 +330,48 @@ Section Trace.
   Corollary announcements_complete evs pid s' acts : run_acts (h_init pid) evs = Some (s', acts) ->
     haves_sent acts ++ h_msg_buff s' = flat_map (fun e => bhave_of (fst e)) evs /\ (h_choked s' = false -> h_msg_buff s' = []).
   Proof. intros H. apply (announcements_in_order evs (h_init pid) s' acts H). intros Hc. discriminate. Qed.
+
+  (* ---- C08: the handshake gate opens only through a valid handshake ------------------------------------------ *)
+  Lemma beq_eq (a b : bytes) : bytes_eqb a b = true -> a = b.
+  Proof.
+    revert b. induction a as [|x a IH]; intros [|y b]; cbn; try discriminate; [reflexivity|].
+    intros H. apply andb_true_iff in H. destruct H as [H1 H2]. apply N.eqb_eq in H1. rewrite H1, (IH b H2). reflexivity.
+  Qed.
+
+  Theorem gate_opens_only_by_valid_handshake s ev r s' acts :
+    hs s ev r = HCont s' acts -> h_hs_done s = false -> h_hs_done s' = true ->
+    exists pid, ev = EFrame (Handshake (c_info_hash cf) pid) /\ (forall e, h_peer_id s = Some e -> pid = e).
+  Proof.
+    intros H Hd Hd'.
+    assert (No : forall s1, h_hs_done s1 = h_hs_done s -> s' = s1 -> False) by (intros s1 E ->; congruence).
+    destruct ev as [|m| | | |i|[[|]|]]; cbn [hstep] in H.
+    - exfalso. destruct (h_peer_id s); [apply (No s); [reflexivity|]; unfold init_handshake in H; destruct r as [[]|]; try discriminate; injection H as <- _; reflexivity
+                                        | injection H as <- _; apply (No s); reflexivity].
+    - unfold handle_frame in H. rewrite Hd in H. cbn [negb andb] in H.
+      change Handler_gate_on_handshake with true in H. cbn [andb] in H.
+      destruct m as [ih pid| | | | | |idx|bs|ri rb rl|pi pb blk|ci cb cl]; try discriminate.
+      destruct (bytes_eqb ih (c_info_hash cf)) eqn:Eh; cbn [negb] in H; [|discriminate].
+      apply beq_eq in Eh. subst ih. exists pid. split; [reflexivity|].
+      intros e He. cbn [set_ka h_peer_id] in H. rewrite He in H.
+      destruct (bytes_eqb pid e) eqn:Ep; cbn [negb] in H; [apply beq_eq in Ep; exact Ep | discriminate].
+    - discriminate.
+    - change Handler_recv_error_terminates with true in H. discriminate.
+    - exfalso. destruct (h_keep_alive s =? peer_handler_KEEP_ALIVE_LIMIT); [discriminate|]. injection H as <- _. apply (No (set_ka s (h_keep_alive s + 1))); reflexivity.
+    - exfalso.
+      assert (Ann : forall s0 s2 a2, (if h_choked s0 then (set_buff s0 (h_msg_buff s0 ++ [i]), []) else (s0, [ASend (Wire.Have i)])) = (s2, a2) ->
+                    h_hs_done s2 = h_hs_done s0).
+      { intros s0 s2 a2. destruct (h_choked s0); intros [= <- _]; reflexivity. }
+      destruct (h_rx s) as [rx|].
+      + destruct (rx_index rx =? i).
+        * destruct (after_piece_finish cf (set_rx s None) _ r) as [s1 a1|s1 a1 [|]|] eqn:E; try discriminate.
+          -- destruct (if h_choked s1 then _ else _) as [s2 a2] eqn:E2. injection H as <- _.
+             rewrite (Ann _ _ _ E2), (apf_hs _ _ _ _ _ (or_introl E)) in Hd'. cbn in Hd'. congruence.
+          -- destruct (if h_choked s1 then _ else _) as [s2 a2] eqn:E2. injection H as <- _.
+             rewrite (Ann _ _ _ E2), (apf_hs _ _ _ _ _ (or_intror E)) in Hd'. cbn in Hd'. congruence.
+        * destruct (if h_choked s then _ else _) as [s2 a2] eqn:E2. injection H as <- _. rewrite (Ann _ _ _ E2) in Hd'. congruence.
+      + destruct (if h_choked s then _ else _) as [s2 a2] eqn:E2. injection H as <- _. rewrite (Ann _ _ _ E2) in Hd'. congruence.
+    - exfalso. injection H as <- _. cbn in Hd'. congruence.
+    - exfalso. injection H as <- _. congruence.
+    - exfalso. injection H as <- _. congruence.
+  Qed.
 End Trace.
